@@ -96,6 +96,50 @@ theorem history_independent_runs (h1 h2 : List Str) (q : QName) (attrs : List (Q
     (tableOK_reachable h1 (fun ns h => (hs1 ns h).1)) (nsClean_reachable h1 (fun ns h => (hs1 ns h).2))
     (tableOK_reachable h2 (fun ns h => (hs2 ns h).1)) (nsClean_reachable h2 (fun ns h => (hs2 ns h).2)) ht1 ht2
 
+/-! #### a binding, once made, is never lost (documents that are alive keep their declarations) -/
+
+theorem lookupNs_append_some {tbl ext : NsTable} {ns p : Str} (h : lookupNs tbl ns = some p) :
+    lookupNs (tbl ++ ext) ns = some p := by
+  induction tbl with
+  | nil => simp [lookupNs] at h
+  | cons e r ih =>
+    obtain ⟨n, q⟩ := e
+    simp only [lookupNs, List.cons_append] at h ⊢
+    split
+    · rename_i hn; simpa [hn] using h
+    · rename_i hn; simp only [hn, if_false] at h; exact ih h
+
+/-- one `get_nsprefix` call keeps every binding of the declaration table -/
+theorem binding_persists_step (st : NsState) (x ns p : Str) (h : lookupNs st.seen ns = some p) :
+    lookupNs (getNsPrefix st x).1.seen ns = some p := by
+  unfold getNsPrefix
+  split
+  · exact h
+  · simp only
+    split
+    · exact h
+    · exact lookupNs_append_some h
+
+/-- **C14 (a namespace that was declared stays declared, under the same prefix)**: whatever the process does to the
+    table afterwards — more documents, more foreign namespaces, loading packages — an element built earlier (whose
+    qualified name was fixed when it was built) still finds its prefix bound to its namespace on every later root. -/
+theorem binding_persists (st : NsState) (hist : List Str) (ns p : Str) (h : lookupNs st.seen ns = some p) :
+    lookupNs (run st hist).seen ns = some p := by
+  induction hist generalizing st with
+  | nil => exact h
+  | cons x r ih => exact ih _ (binding_persists_step st x ns p h)
+
+/-- … hence the qualified name an element was given when it was built is the one any later table gives it -/
+theorem qualify_persists (st : NsState) (hist : List Str) (q : QName) (p : Str) (h : lookupNs st.seen q.ns = some p) :
+    qualify (run st hist).seen q = qualify st.seen q := by
+  have h2 := binding_persists st hist q.ns p h
+  simp [qualify, prefixOf, h, h2]
+
+/-- the premise is met by a real history: a foreign namespace registered first, then others -/
+example : lookupNs (run initial [[117]]).seen [117] = some (NS_PFX ++ dec OdfModel.Generated.nsdict0.length)
+    ∧ lookupNs (run (run initial [[117]]) [[118], [119]]).seen [117] = some (NS_PFX ++ dec OdfModel.Generated.nsdict0.length) := by
+  constructor <;> decide +kernel
+
 /-! #### prefixes used inside attribute values -/
 
 theorem knownNs_mem {d : NsTable} {p ns : Str} (h : knownNs d p = some ns) : (ns, p) ∈ d := by
